@@ -119,7 +119,7 @@ func (c cfg12) request() *pb.SubscribeRequest {
 func run12(cfg xplore.Config, ch vrt.Chooser, trace bool) (xplore.Outcome, *vrt.Result) {
 	c := cfg.Data.(cfg12)
 	var out xplore.Outcome
-	res := vrt.Run(ch, vrt.Options{Trace: trace}, func() {
+	res := vrt.Run(ch, vrt.Options{Reverse: cfg.Reverse, Trace: trace}, func() {
 		w := newWorld([]string{"t1", "t2"})
 		switch c.state {
 		case "small":
